@@ -1,6 +1,7 @@
 /- Line-protocol driver: `<engine> <op> <args…>` per line on stdin, one result line out.
 Core-only so that it links as a `lean_exe`. -/
 import OsmoVerif.Model.DrvNum
+import OsmoVerif.Model.DrvMath
 
 open OsmoVerif
 
@@ -10,6 +11,8 @@ structure St where
 def step (st : St) (line : String) : St × String :=
   match (line.trimAscii.toString.splitOn " ").filter (· ≠ "") with
   | "num" :: op :: args => (st, Num.stepNum op args)
+  | "math" :: op :: args => (st, MathM.stepMath op args)
+  | "tick" :: op :: args => (st, Tick.stepTick op args)
   | _ => (st, "bad-op")
 
 partial def loop (h : IO.FS.Stream) (out : IO.FS.Stream) (st : St) : IO Unit := do
